@@ -68,7 +68,8 @@ LEAN_KEYWORDS = {"at", "from", "fun", "let", "in", "do", "then", "else", "if", "
                  "notation", "infix", "prefix", "postfix", "axiom", "example", "abbrev", "opaque", "private",
                  "protected", "partial", "unsafe", "noncomputable", "using", "calc", "nomatch", "nofun", "mut",
                  "break", "continue", "export", "set_option", "attribute", "local", "scoped", "λ", "Σ", "Π",
-                 "obtain", "exists", "forall", "true", "false", "not", "and", "or"}
+                 "obtain", "exists", "forall", "true", "false", "not", "and", "or", "matches", "suffices", "infixl", "infixr",
+                 "termination_by", "decreasing_by", "elab", "declare_syntax_cat", "omit", "include"}
 EXC = {"Exception": ".generic", "ValueError": ".value", "TypeError": ".type", "IndexError": ".index",
        "KeyError": ".key", "NotImplementedError": ".notImplemented", "OverflowError": ".overflow",
        "ZeroDivisionError": ".zeroDiv", "AttributeError": ".attribute", "OSError": ".os"}
@@ -85,6 +86,7 @@ class V:
     def __init__(self, s, t, lo=None, hi=None, n=None, ltlen=(), elo=None, ehi=None, rec=None):
         self.s, self.t, self.lo, self.hi, self.n, self.ltlen = s, t, lo, hi, n, frozenset(ltlen)
         self.elo, self.ehi, self.rec = elo, ehi, rec
+        self.static = None            # a module-level Bool constant whose value CPython has computed (PY3)
     def widen(self):
         return V(self.s, self.t, None, None, self.n, (), None, None, self.rec)
 
@@ -165,6 +167,14 @@ class Module:
                 hits += 1
         return hits == 1 and good
 
+    def version_test(self, e):
+        """`sys.version_info <cmp> (INT, …)` where `sys` is exactly the standard module"""
+        return (isinstance(e, ast.Compare) and len(e.ops) == 1 and isinstance(e.ops[0], (ast.Gt, ast.GtE, ast.Lt, ast.LtE))
+                and isinstance(e.left, ast.Attribute) and e.left.attr == "version_info"
+                and isinstance(e.left.value, ast.Name) and e.left.value.id == "sys" and self.imported("sys", "sys")
+                and isinstance(e.comparators[0], ast.Tuple) and e.comparators[0].elts
+                and all(isinstance(x, ast.Constant) and type(x.value) is int for x in e.comparators[0].elts))
+
     def constant(self, name, where):
         """module-level `NAME = <int expression | list of int expressions>`; exactly one binding"""
         if name in self.consts:
@@ -203,6 +213,32 @@ class Module:
             if isinstance(n, ast.Attribute) and isinstance(n.value, ast.Name) and n.value.id == name:
                 raise TranslationError("%s: a method / attribute of module-level %r is used at line %d (it may be mutated): "
                                        "not a constant" % (where, name, n.lineno))
+        if self.version_test(node.value):
+            # `sys.version_info <cmp> (ints…)`: a closed expression, evaluated by the CPython that runs the translator
+            import sys as _sys
+            val = bool(eval(compile(ast.Expression(node.value), "<const>", "eval"), {"__builtins__": {}, "sys": _sys}))
+            text = "/-- module constant, line %d: `%s` — evaluated by the CPython running the translator (%d.%d): %s -/\ndef %s : Bool := %s" % (
+                node.lineno, self.segment(node).replace("\n", " "), _sys.version_info[0], _sys.version_info[1], val,
+                lname(name), "true" if val else "false")
+            out = V(lname(name), BOOL)
+            out.static = val
+            self.consts[name] = (text, out)
+            self.const_order.append(name)
+            return out
+        if isinstance(node.value, (ast.Tuple, ast.List)) and node.value.elts and all(
+                isinstance(x, (ast.Tuple, ast.List)) and len(x.elts) == 2 for x in node.value.elts):
+            # a constant table of pairs `((a, b), …)`: kept symbolically, usable only as `for x, y in NAME:` (the same
+            # translation as `for x, y in {a: b, …}.items()`)
+            fn = Fn(self, None, {"name": name}, const=True)
+            items = []
+            for x in node.value.elts:
+                pa, pb = fn.expr(x.elts[0], {}), fn.expr(x.elts[1], {})
+                if fn.pre or any(q.t != INT or q.lo is None or q.lo != q.hi for q in (pa, pb)):
+                    raise TranslationError("%s: module table %r: only constant int pairs are in the subset" % (where, name))
+                items.append((pa.lo, pb.lo))
+            out = V("", "pairs", rec=items)
+            self.consts[name] = (None, out)
+            return out
         fn = Fn(self, None, {"name": name}, const=True)
         v = fn.expr(node.value, {})
         if fn.pre:
@@ -230,6 +266,7 @@ class Fn:
         self.const = const
         self.names = set()
         self.notes = []
+        self.owner = None             # name of the first parameter of a method declared with `mutates`
         self.locals = set()           # parameters and every name the function binds (Python: local for the whole body)
         if node is not None:
             for n in ast.walk(node):
@@ -488,6 +525,10 @@ class Fn:
                 return "True"
             self.err(e, "isinstance on anything but a parameter declared with that class")
         v = self.expr(e, env)
+        if v.t == BOOL and isinstance(e, ast.Name) and v.static is not None:
+            self.notes.append("the module constant %s is %s (evaluated by the CPython running the translator); the branch "
+                              "for the other value is not translated" % (e.id, v.static))
+            return "True" if v.static else "False"
         if v.t == BOOL:
             return "(%s = true)" % v.s
         if v.t == INT:
@@ -561,8 +602,10 @@ class Fn:
         f = e.func
         if e.keywords:
             self.err(e, "keyword arguments are not in the subset")
+        if len(e.args) == 1 and isinstance(e.args[0], ast.Starred):
+            e = self.inline_starred(e, env)
         name = f.id if isinstance(f, ast.Name) else None
-        if name in ("len", "int", "pow", "bytes", "bytearray", "sum", "reduce", "Decimal", "isinstance", "range"):
+        if name in ("len", "int", "pow", "bytes", "bytearray", "sum", "reduce", "Decimal", "isinstance", "range", "tuple", "list"):
             if name in self.locals or name in env or (name not in ("reduce", "Decimal") and self.mod.binds(name)):
                 self.err(e, "the name %s is re-bound in this function or module: the call is not the built-in" % name)
         if name == "len" and len(e.args) == 1:
@@ -630,8 +673,35 @@ class Fn:
             if a.t in (BYTES, BYTEARRAY):
                 return V(a.s, BYTES if name == "bytes" else BYTEARRAY, n=a.n)
             self.err(e, "%s() of %s" % (name, a.t))
+        if name in ("tuple", "list") and len(e.args) == 1:
+            a = self.expr(e.args[0], env)
+            if a.t != INTS:
+                self.err(e, "%s() of %s" % (name, a.t))
+            return V(a.s, INTS, n=a.n, elo=a.elo, ehi=a.ehi)          # a new object with the same items
         if name in ("bytes", "bytearray") and not e.args:
             return V("([] : Bytes)", BYTES if name == "bytes" else BYTEARRAY, n=0)
+        if name == "sum" and len(e.args) == 1 and isinstance(e.args[0], (ast.GeneratorExp, ast.ListComp)):
+            # sum(f(v) for v in <range / bytes / int list>): the sum of the mapped sequence; the element expression must not
+            # raise, the comprehension has one `for`, no `if`; its variable is local to it (Python 3)
+            g = e.args[0]
+            if len(g.generators) != 1 or g.generators[0].ifs or g.generators[0].is_async \
+               or not isinstance(g.generators[0].target, ast.Name):
+                self.err(e, "sum() of a comprehension: exactly one `for NAME in …`, no `if`, is in the subset")
+            var = g.generators[0].target.id
+            if var in env:
+                self.err(e, "the comprehension variable %s shadows a bound name" % var)
+            iters, lv = self.iter_of(e, g.generators[0].iter, var, env, [])
+            env2 = dict(env)
+            env2[var] = lv
+            self.guard += 1
+            try:
+                el = self.expr(g.elt, env2)
+            finally:
+                self.guard -= 1
+            if el.t != INT:
+                self.err(e, "sum() of a comprehension of %s" % el.t)
+            lo = 0 if (el.lo is not None and el.lo >= 0) else None
+            return V("(Py.sum (List.map (fun (%s : Int) => %s) %s))" % (lname(var), el.s, iters), INT, lo, None)
         if name == "sum" and len(e.args) == 1:
             a = self.expr(e.args[0], env)
             if a.t != INTS:
@@ -675,6 +745,22 @@ class Fn:
                     self.err(e, "struct.pack: %d values for %d codes" % (len(vs), n))
                 return self.hoist(e, "Py.structPackI %s [%s]" % (fmt, ", ".join(v.s for v in vs)), BYTES)
             self.err(e, "struct.%s is not in the subset" % f.attr)
+        if isinstance(f, ast.Attribute) and f.attr == "count" and len(e.args) == 1 and isinstance(e.args[0], ast.Constant) \
+           and isinstance(e.args[0].value, str) and len(e.args[0].value) == 1 and self.is_bin_slice(f.value):
+            # `bin(x)[lo:hi].count('c')`: the characters of Python's binary literal of x ('-' sign, '0b', digits, most
+            # significant first), sliced (bounds >= 0 shown), and the occurrences of one character counted
+            if "bin" in self.locals or "bin" in env or self.mod.binds("bin"):
+                self.err(e, "the name bin is re-bound in this function or module")
+            sub = f.value
+            x = self.expr(sub.value.args[0], env)
+            if x.t != INT:
+                self.err(e, "bin() of %s" % x.t)
+            lo = self.expr(sub.slice.lower, env) if sub.slice.lower is not None else V("0", INT, 0, 0)
+            hi = self.expr(sub.slice.upper, env)
+            for b_ in (lo, hi):
+                if b_.t != INT or b_.lo is None or b_.lo < 0:
+                    self.err(e, "slice bound %s of bin(...): cannot show it is >= 0; declare `ranges` in the SRC table" % b_.s)
+            return V("(Py.strCount '%s' (Py.sliceI (Py.bin %s) %s %s))" % (e.args[0].value, x.s, lo.s, hi.s), INT, 0, None)
         # calls of other translated functions / constructors
         target = None
         selfcall = False
@@ -685,9 +771,40 @@ class Fn:
                 target, selfcall = env[f.value.id].rec + "." + f.attr, f.value.id
             else:
                 target = f.value.id + "." + f.attr
+        if target is not None and target not in self.mod.funcs and name is not None and name not in env \
+           and name not in self.locals and name not in getattr(self.mod, "in_progress", set()):
+            # a helper function of the same module that the SRC table does not list: translated on demand, with the
+            # parameter types of this call (its own tie is the caller's theorem)
+            helper = None
+            for n_ in self.mod.tree.body:
+                if isinstance(n_, ast.FunctionDef) and n_.name == name:
+                    helper = n_
+            if helper is not None and not helper.decorator_list:
+                ptypes = {}
+                saved_pre, self.pre = self.pre, []
+                saved_guard, self.guard = self.guard, 1          # only the types are wanted here
+                try:
+                    for prm, a_ in zip([x.arg for x in helper.args.args], e.args):
+                        try:
+                            ta = self.expr(a_, env).t
+                        except (TranslationError, NeedMonad):
+                            ta = None
+                        ptypes[prm] = {INT: "int", BYTES: "bytes", BYTEARRAY: "bytes", INTS: "ints"}.get(ta)
+                finally:
+                    self.pre, self.guard = saved_pre, saved_guard
+                if all(v_ is not None for v_ in ptypes.values()) and len(ptypes) == len(helper.args.args):
+                    if not hasattr(self.mod, "in_progress"):
+                        self.mod.in_progress = set()
+                    self.mod.in_progress.add(name)
+                    try:
+                        translate_function(self.mod, {"func": name, "params": ptypes})
+                    finally:
+                        self.mod.in_progress.discard(name)
+                    self.notes.append("the helper %s of the same module is translated on demand (definition above)" % name)
         if target in self.mod.funcs:
             sig = self.mod.funcs[target]
             args = []
+            argv = {}
             pyargs = list(e.args)
             for pname, pt in sig["params"]:
                 if pt[0] == "rec":
@@ -712,10 +829,19 @@ class Fn:
                     if a.t != pt[0]:
                         self.err(e, "argument %s of %s: %s expected, %s given" % (pname, target, pt[0], a.t))
                     args.append(a.s)
+                    argv[pname] = a
             if pyargs:
                 self.err(e, "too many arguments for %s" % target)
+            if sig.get("mutates"):
+                self.err(e, "%s changes its object; calling it is not in the subset" % target)
             if sig.get("ranges"):
-                self.err(e, "%s is translated under declared parameter ranges; calling it is not in the subset" % target)
+                # the ranges are hypotheses of the callee's definition: the call must discharge them, which the translator
+                # does for arguments whose interval it knows to lie inside the range (`by decide` on the constant bounds)
+                for key, (lo, hi) in sig["ranges"].items():
+                    if key not in argv or argv[key].lo is None or argv[key].hi is None or argv[key].lo != argv[key].hi \
+                       or not (lo <= argv[key].lo <= hi):
+                        self.err(e, "%s is translated under a declared range for %s; the call does not pass a constant inside it" % (target, key))
+                    args.append("(by decide)")
             text = "%s %s" % (sig["lean"], " ".join(args))
             if sig["monadic"]:
                 return self.hoist(e, text, sig["ret"])
@@ -744,6 +870,83 @@ class Fn:
                     name, ", ".join(fl for fl, _ in fields)))
                 return V("(%s)" % ", ".join(v.s for v in vals), "rec:" + name + ":" + ",".join(fl for fl, _ in fields))
         self.err(e, "call of %s is not in the subset" % ast.unparse(f))
+
+    def inline_starred(self, e, env):
+        """`g(*h(a, …))` where `h` is a function of this module / class whose body is `return (e1, …, en)`: the call
+        `g(e1[a/x], …)`.  Only names and constants may be passed to `h` (they are substituted, so evaluated once per use)."""
+        inner = e.args[0].value
+        if not isinstance(inner, ast.Call) or inner.keywords:
+            self.err(e, "starred argument that is not a call is not in the subset")
+        hf = inner.func
+        hname = hf.id if isinstance(hf, ast.Name) else (
+            hf.value.id + "." + hf.attr if isinstance(hf, ast.Attribute) and isinstance(hf.value, ast.Name) else None)
+        if hname is None or hname.split(".")[0] in env or hname.split(".")[0] in self.locals:
+            self.err(e, "starred call of %s is not in the subset" % ast.unparse(hf))
+        node = self.mod.find(hname)
+        if not isinstance(node, ast.FunctionDef):
+            self.err(e, "%s is not a function" % hname)
+        decos = [d.id if isinstance(d, ast.Name) else ast.unparse(d) for d in node.decorator_list]
+        if any(d != "staticmethod" for d in decos) or ("." in hname and decos != ["staticmethod"]):
+            self.err(e, "starred call of %s: only plain functions / static methods are inlined" % hname)
+        body = [st for st in node.body if not (isinstance(st, ast.Expr) and isinstance(st.value, ast.Constant))]
+        a = node.args
+        if len(body) != 1 or not isinstance(body[0], ast.Return) or not isinstance(body[0].value, ast.Tuple) \
+           or a.vararg or a.kwarg or a.kwonlyargs or a.posonlyargs or a.defaults:
+            self.err(e, "starred call of %s: its body must be a single `return (e1, …)`" % hname)
+        params = [x.arg for x in a.args]
+        if len(params) != len(inner.args) or not all(isinstance(x, (ast.Name, ast.Constant)) for x in inner.args):
+            self.err(e, "starred call of %s: only names / constants may be passed" % hname)
+        sub = dict(zip(params, inner.args))
+        bound = {n.id for n in ast.walk(body[0].value) if isinstance(n, ast.Name)} - set(params)
+        clash = [n for n in bound if n in env or n in self.locals]
+        if clash:
+            self.err(e, "starred call of %s: its free name %s is a local here" % (hname, clash[0]))
+        class Sub(ast.NodeTransformer):
+            def visit_Name(self_, n):
+                return ast.copy_location(__import__("copy").deepcopy(sub[n.id]), n) if n.id in sub else n
+        elts = [Sub().visit(__import__("copy").deepcopy(x)) for x in body[0].value.elts]
+        self.notes.append("%s(*%s(…)): the tuple `%s` returned by %s is passed element by element" % (
+            ast.unparse(e.func), hname, ast.unparse(body[0].value), hname))
+        return ast.copy_location(ast.Call(func=e.func, args=elts, keywords=[]), e)
+
+    @staticmethod
+    def is_bin_slice(e):
+        return (isinstance(e, ast.Subscript) and isinstance(e.slice, ast.Slice) and e.slice.step is None
+                and e.slice.upper is not None and isinstance(e.value, ast.Call) and isinstance(e.value.func, ast.Name)
+                and e.value.func.id == "bin" and len(e.value.args) == 1 and not e.value.keywords)
+
+    def iter_of(self, s, it, var, env, asg):
+        """(Lean text of the list of ints iterated over, V of the loop variable) for range(...) / bytes / int list"""
+        if isinstance(it, ast.Call) and isinstance(it.func, ast.Name) and it.func.id == "range" and not it.keywords \
+           and 1 <= len(it.args) <= 3:
+            if "range" in self.locals or self.mod.binds("range"):
+                self.err(s, "the name range is re-bound in this function or module")
+            args = [self.expr(a, env) for a in it.args]
+            if any(a.t != INT for a in args):
+                self.err(s, "range() of a non-int")
+            if len(args) == 1:
+                lt = set()
+                a0 = it.args[0]
+                if isinstance(a0, ast.Call) and isinstance(a0.func, ast.Name) and a0.func.id == "len" and len(a0.args) == 1:
+                    sq = a0.args[0]
+                    kname = sq.id if isinstance(sq, ast.Name) else (
+                        sq.value.id + "." + sq.attr if isinstance(sq, ast.Attribute) and isinstance(sq.value, ast.Name) else None)
+                    if kname is not None and kname not in asg:
+                        lt.add(kname)
+                return "(Py.range %s)" % args[0].s, V(lname(var), INT, 0, None if args[0].hi is None else args[0].hi - 1, ltlen=lt)
+            if len(args) == 2:
+                return "(Py.range2 %s %s)" % (args[0].s, args[1].s), \
+                    V(lname(var), INT, args[0].lo, None if args[1].hi is None else args[1].hi - 1)
+            if args[2].lo is None or args[2].lo != args[2].hi or args[2].lo <= 0:
+                self.err(s, "range step must be a positive constant")
+            return "(Py.range3 %s %s %s)" % (args[0].s, args[1].s, args[2].s), \
+                V(lname(var), INT, args[0].lo, None if args[1].hi is None else args[1].hi - 1)
+        seq = self.expr(it, env)
+        if seq.t in (BYTES, BYTEARRAY):
+            return "(Py.bytesInts %s)" % seq.s, V(lname(var), INT, 0, 255)
+        if seq.t == INTS:
+            return seq.s, V(lname(var), INT, seq.elo, seq.ehi)
+        self.err(s, "iteration over %s is not in the subset" % seq.t)
 
     def closed_float(self, e):
         """a closed arithmetic expression over int / float literals (no names)"""
@@ -833,6 +1036,8 @@ class Fn:
             return "Bytes"
         if t.startswith("rec:"):
             return " × ".join(["Int"] * len(t.split(":")[2].split(",")))
+        if t.startswith("tup:"):
+            return " × ".join(t[4:].split(";"))
         return t
 
     def tuple_of(self, names, env):
@@ -855,6 +1060,31 @@ class Fn:
 
     def varname(self, key):
         return lname(key.replace(".", "_"))
+
+    def is_logging_call(self, e):
+        """`logging.<level>(…)` with `logging` the standard module, or `logger.<level>(…)` with `logger` bound exactly once,
+        at module level, to `logging.getLogger(…)`"""
+        if not (isinstance(e, ast.Call) and isinstance(e.func, ast.Attribute) and isinstance(e.func.value, ast.Name)
+                and e.func.attr in ("debug", "info", "warning", "error", "critical", "exception")):
+            return False
+        base = e.func.value.id
+        if base in self.locals:
+            return False
+        if base == "logging":
+            return self.mod.imported("logging", "logging")
+        binds = [n for n in self.mod.tree.body if isinstance(n, ast.Assign) and len(n.targets) == 1
+                 and isinstance(n.targets[0], ast.Name) and n.targets[0].id == base]
+        stores = [n for n in ast.walk(self.mod.tree) if isinstance(n, ast.Name) and n.id == base and isinstance(n.ctx, ast.Store)]
+        if len(binds) != 1 or len(stores) != 1:
+            return False
+        v = binds[0].value
+        return (isinstance(v, ast.Call) and isinstance(v.func, ast.Attribute) and v.func.attr == "getLogger"
+                and isinstance(v.func.value, ast.Name) and v.func.value.id == "logging" and self.mod.imported("logging", "logging"))
+
+    @staticmethod
+    def is_append(e):
+        return (isinstance(e, ast.Call) and isinstance(e.func, ast.Attribute) and e.func.attr == "append"
+                and isinstance(e.func.value, ast.Name))
 
     def assigned(self, stmts, env):
         """names (or `obj.attr` keys) assigned anywhere in the statements, in order of first appearance"""
@@ -883,6 +1113,8 @@ class Fn:
                     tgt(n.target)
                 elif isinstance(n, ast.For):
                     tgt(n.target)
+                elif isinstance(n, ast.Expr) and self.is_append(n.value):
+                    tgt(n.value.func.value)
                 elif isinstance(n, (ast.NamedExpr, ast.With, ast.Try, ast.FunctionDef, ast.ClassDef,
                                     ast.Global, ast.Nonlocal, ast.Delete, ast.Import, ast.ImportFrom)):
                     self.err(n, "%s is not in the subset" % type(n).__name__)
@@ -906,6 +1138,38 @@ class Fn:
             return self.block(rest, env, k)           # docstring
         if isinstance(s, ast.Pass):
             return self.block(rest, env, k)
+        if isinstance(s, ast.Expr) and self.is_logging_call(s.value):
+            # logging.<level>(…) / logger.<level>(…): no effect on any value the translation speaks about.  Its arguments
+            # must be constants or bound plain names, so that evaluating them cannot raise.
+            for a_ in s.value.args:
+                if not (isinstance(a_, ast.Constant) or (isinstance(a_, ast.Name) and a_.id in env and env[a_.id].t != "rec")):
+                    self.err(s, "logging call with an argument that is not a constant or a bound name (evaluating it could raise)")
+            if s.value.keywords:
+                self.err(s, "logging call with keyword arguments is not in the subset")
+            self.notes.append("the logging call at line %d has no effect on the translated values and is left out" % s.lineno)
+            return self.block(rest, env, k)
+        if isinstance(s, ast.Expr) and self.is_append(s.value):
+            # `t.append(e)` on a list of ints created in this function and not aliased: t = t + [e]
+            call = s.value
+            key = call.func.value.id
+            if key not in env:
+                self.err(s, "append to unbound %s" % key)
+            seq = env[key]
+            if seq.t != INTS:
+                self.err(s, "append on %s is not in the subset" % seq.t)
+            if "append" in self.locals:
+                self.err(s, "the name append is bound in this function")
+            self.need_own(s, key, env)
+            if len(call.args) != 1 or call.keywords:
+                self.err(s, "append takes exactly one argument")
+            v = self.expr(call.args[0], env)
+            if v.t != INT:
+                self.err(s, "append of %s to a list of ints" % v.t)
+            known = seq.n is not None and seq.n > 0
+            nv = V("(%s ++ [%s])" % (seq.s, v.s), INTS, n=None if seq.n is None else seq.n + 1,
+                   elo=v.lo if seq.n == 0 else _min(seq.elo, v.lo), ehi=v.hi if seq.n == 0 else _max(seq.ehi, v.hi))
+            text = self.bind(key, nv, env)
+            return self.flush(text) + self.block(rest, env, k)
         if isinstance(s, ast.Return):
             if self.loop:
                 self.err(s, "return inside a loop is not in the subset")
@@ -914,6 +1178,15 @@ class Fn:
             if isinstance(s.value, ast.Tuple):
                 self.err(s, "returning a tuple is not in the subset")
             v = self.expr(s.value, env)
+            if self.spec.get("mutates"):
+                # a method that changes tables of its object: the translation returns the final tables (value semantics);
+                # the Python return value must be a constant, it is dropped
+                if not isinstance(s.value, ast.Constant):
+                    self.err(s, "a method declared with `mutates` must return a constant")
+                keys = [self.owner + "." + a for a in self.spec["mutates"]]
+                self.notes.append("the method changes %s in place; the translation RETURNS their final values as a tuple "
+                                  "(the Python return value `%s` is dropped)" % (", ".join(keys), ast.unparse(s.value)))
+                v = V("(%s)" % ", ".join(env[k_].s for k_ in keys), "tup:" + ";".join(self.ltype(env[k_].t) for k_ in keys))
             return self.flush(self.result(v))
         if isinstance(s, ast.Raise):
             if s.exc is None or s.cause is not None:
@@ -966,7 +1239,9 @@ class Fn:
                 src = value_node.id
             elif isinstance(value_node, ast.Attribute) and isinstance(value_node.value, ast.Name):
                 src = value_node.value.id + "." + value_node.attr
-            if src is None and not isinstance(value_node, (ast.Subscript, ast.IfExp)):
+            is_tuple = isinstance(value_node, ast.Tuple) or (isinstance(value_node, ast.Call) and isinstance(value_node.func, ast.Name)
+                                                             and value_node.func.id == "tuple")
+            if src is None and not isinstance(value_node, (ast.Subscript, ast.IfExp)) and not is_tuple:
                 o.add(key)            # a new object: list display, [c] * n, bytearray(...), a call result, a slice copy
             elif src is not None:
                 o.discard(src)        # two names for one object: neither may be mutated from here on
@@ -978,13 +1253,15 @@ class Fn:
         env[key] = V(n, v.t, v.lo, v.hi, v.n, v.ltlen, v.elo, v.ehi, v.rec)
         return "let %s : %s := %s\n" % (n, self.ltype(v.t), v.s)
 
-    def target_key(self, t, env):
+    def target_key(self, t, env, sub=False):
         if isinstance(t, ast.Name):
             return t.id
         if isinstance(t, ast.Attribute) and isinstance(t.value, ast.Name) and t.value.id in env and env[t.value.id].t == "rec":
             key = t.value.id + "." + t.attr
             if key not in env:
                 self.err(t, "attribute %s is not declared for %s in the SRC table" % (t.attr, t.value.id))
+            if sub and t.value.id == self.owner and t.attr in self.spec.get("mutates", ()):
+                return key            # item assignment on a table the SRC entry declares as changed by the method
             self.err(t, "assignment to the attribute %s (a method that changes its object) is not in the subset" % key)
         self.err(t, "assignment target %s is not in the subset" % ast.unparse(t))
 
@@ -1023,7 +1300,7 @@ class Fn:
                 text += self.bind(key, V("(Py.intAt %s %d)" % (v.s, i), INT, v.elo, v.ehi), env)
             return self.flush(text) + self.block(rest, env, k)
         if isinstance(target, ast.Subscript):
-            key = self.target_key(target.value, env)
+            key = self.target_key(target.value, env, sub=True)
             if key not in env:
                 self.err(s, "item assignment to unbound %s" % key)
             seq = env[key]
@@ -1037,17 +1314,33 @@ class Fn:
                 return text + self.block(rest, env, k)
             if seq.t != INTS:
                 self.err(s, "item assignment on %s is not in the subset" % seq.t)
-            i = self.expr(target.slice, env)
-            v = self.expr(value, env)
+            if op is None:
+                v = self.expr(value, env)          # Python evaluates the right-hand side first, then the index expression
+                i = self.expr(target.slice, env)
+            else:
+                i = self.expr(target.slice, env)
+                npre = len(self.pre)
+                v = self.expr(value, env)
+                value_raises = len(self.pre) > npre
+            if i.t != INT:
+                self.err(s, "index of type %s" % i.t)
             if op is not None:
                 if not self.safe_index(seq, target.value, i):
-                    self.err(s, "cannot show that index %s is in range for %s[...] %s=" % (i.s, key, type(op).__name__))
-                cur = V("(Py.intAt %s %s)" % (seq.s, i.s), INT, seq.elo, seq.ehi)
+                    # t[i] op= v: Python reads t[i] (IndexError / negative index rules), evaluates v, then stores
+                    if value_raises:
+                        self.err(s, "augmented item assignment whose value can raise is not in the subset")
+                    cur = self.hoist(s, "Py.getItem %s %s" % (seq.s, i.s), INT, lo=seq.elo, hi=seq.ehi)
+                else:
+                    cur = V("(Py.intAt %s %s)" % (seq.s, i.s), INT, seq.elo, seq.ehi)
                 v = self.binop(s, op, cur, v)
             if v.t != INT:
                 self.err(s, "item assignment of %s" % v.t)
             if not self.safe_index(seq, target.value, i):
-                self.err(s, "cannot show that index %s is in range for the assignment to %s[...] (IndexError)" % (i.s, key))
+                # Python's rules: a negative index counts from the end, otherwise IndexError
+                r = self.hoist(s, "Py.setItem %s %s %s" % (seq.s, i.s, v.s), INTS, n=seq.n, elo=_min(seq.elo, v.lo),
+                               ehi=_max(seq.ehi, v.hi))
+                text = self.flush("") + self.bind(key, r, env)
+                return text + self.block(rest, env, k)
             nv = V("(Py.setAt %s %s %s)" % (seq.s, i.s, v.s), INTS, n=seq.n, elo=_min(seq.elo, v.lo), ehi=_max(seq.ehi, v.hi))
             text = self.bind(key, nv, env)
             return self.flush(text) + self.block(rest, env, k)
@@ -1111,6 +1404,8 @@ class Fn:
     def if_stmt(self, s, rest, env, k):
         c = self.cond(s.test, env)
         pre = self.flush("")
+        if c == "True" and isinstance(s.test, ast.Name):
+            return pre + self.block(list(s.body) + rest, env, k)      # static module constant (noted by `cond`)
         if c == "True":
             # statically true test (isinstance of a declared parameter): only the body exists
             if s.orelse:
@@ -1120,6 +1415,8 @@ class Fn:
                 self.notes.append("the implicit `return None` when the test at line %d is false is unreachable under "
                                   "the declared parameter classes" % s.lineno)
             return pre + self.block(list(s.body) + rest, env, k)
+        if c == "False":
+            return pre + self.block(list(s.orelse) + rest, env, k)
         if self.has_exit(s.body) or self.has_exit(s.orelse):
             if self.loop and self.has_exit(s.body + s.orelse, returns_only=True):
                 self.err(s, "return inside a loop is not in the subset")
@@ -1132,6 +1429,29 @@ class Fn:
         names = [n for n in asg_a + [x for x in asg_b if x not in asg_a]
                  if n in env or (n in asg_a and n in asg_b)]
         if not names:
+            # Nothing that is live afterwards is assigned.  The `if` may be left out of the translation ONLY when both
+            # branches are effect-free and cannot raise: every statement is validated (a bare call, an item store through a
+            # call, … is a TranslationError from `block`; an operation that can raise is refused here) — nothing is dropped
+            # unseen.
+            saved, g0 = self.monadic, self.guard
+            snap = (self.fresh, set(self.names), len(self.notes), list(self.pre))
+            try:
+                self.monadic = False
+                for br in (s.body, s.orelse):
+                    self.block(list(br), env, lambda e2: "()")
+            except NeedMonad:
+                self.guard = g0
+                self.monadic = saved
+                self.err(s, "an `if` whose branches assign no variable that is live afterwards but contain an operation "
+                            "that can raise is not in the subset (it can neither be dropped nor expressed)")
+            finally:
+                self.monadic = saved
+            self.fresh, self.names, self.pre = snap[0], snap[1], snap[3]
+            del self.notes[snap[2]:]
+            if any(not isinstance(st, ast.Pass) for st in list(s.body) + list(s.orelse)):
+                self.notes.append("the `if` at line %d is not translated: its branches were checked statement by statement — "
+                                  "they assign nothing that is read afterwards, cannot raise, and contain no call other than "
+                                  "logging" % s.lineno)
             return pre + self.block(rest, env, k)
         ends = []
         def kk(e2):
@@ -1143,12 +1463,14 @@ class Fn:
             return "(.ok %s)" % t if False else t
         # the branches are pure blocks when nothing in them raises; otherwise the whole `if` is monadic
         saved = self.monadic
+        g0 = self.guard
         try:
             self.monadic = False
             a = self.block(list(s.body), env, kk)
             b = self.block(list(s.orelse), env, kk)
             mon = False
         except NeedMonad:
+            self.guard = g0               # the exception may have left a conditional position half-way
             if not saved:
                 self.monadic = saved
                 raise
@@ -1204,8 +1526,20 @@ class Fn:
                     self.err(s, "loop variable %s is already bound" % nm)
             if pair[0] == pair[1]:
                 self.err(s, "loop target repeats a name")
+        elif isinstance(s.target, ast.Tuple) and len(s.target.elts) == 2 and all(isinstance(x, ast.Name) for x in s.target.elts) \
+                and isinstance(it, ast.Name) and it.id not in env and it.id not in self.locals \
+                and self.mod.constant(it.id, "%s:%d" % (self.mod.relpath, s.lineno)).t == "pairs":
+            # `for a, b in TABLE` over a module-level constant table of int pairs
+            pair = (s.target.elts[0].id, s.target.elts[1].id)
+            items = self.mod.constant(it.id, "").rec
+            for nm in pair:
+                if nm in env:
+                    self.err(s, "loop variable %s is already bound" % nm)
+            if pair[0] == pair[1]:
+                self.err(s, "loop target repeats a name")
+            self.notes.append("the module-level table %s is the constant list of pairs %s" % (it.id, items))
         elif not isinstance(s.target, ast.Name):
-            self.err(s, "loop target must be a single name (or `k, v` over the items of a constant dict)")
+            self.err(s, "loop target must be a single name (or `k, v` over the items of a constant dict / a constant table of pairs)")
         var = s.target.id if pair is None else self.tmp("kv")
         if var in env and var != "_":
             self.err(s, "loop variable %s is already bound (its value after the loop is not modelled)" % var)
@@ -1287,6 +1621,7 @@ class Fn:
                     self.err(s, "loop changes the type of %s" % n)
             return self.tuple_of(state, e2)
         saved = self.monadic
+        g0 = self.guard
         self.loop += 1
         try:
             try:
@@ -1294,6 +1629,7 @@ class Fn:
                 body = self.block(list(s.body), benv, kk)
                 mon = False
             except NeedMonad:
+                self.guard = g0
                 if not saved:
                     raise
                 self.monadic = True
@@ -1342,8 +1678,13 @@ class Fn:
                 self.err(n, "%s inside a while loop is not in the subset" % type(n).__name__)
         if "fuel" not in self.spec:
             self.err(s, "while loop: the SRC entry declares no `fuel` (an int expression bounding the number of iterations)")
-        if self.loop:
-            self.err(s, "a while loop nested in another loop is not in the subset")
+        fuel_src = self.spec["fuel"]
+        if not isinstance(fuel_src, str):
+            # several loops: one expression per `while`, in source order
+            whiles = sorted([n for n in ast.walk(self.node) if isinstance(n, ast.While)], key=lambda n: (n.lineno, n.col_offset))
+            if len(fuel_src) != len(whiles):
+                self.err(s, "the SRC entry declares %d `fuel` expressions for %d while loops" % (len(fuel_src), len(whiles)))
+            fuel_src = fuel_src[[id(n) for n in whiles].index(id(s))]
         if not self.monadic:
             raise NeedMonad()
         asg = self.assigned(s.body, env)
@@ -1351,7 +1692,7 @@ class Fn:
         if not state:
             self.err(s, "while loop assigns no variable that is live before it")
         try:
-            fuel = self.expr(ast.parse(self.spec["fuel"], mode="eval").body, env)
+            fuel = self.expr(ast.parse(fuel_src, mode="eval").body, env)
         except SyntaxError:
             self.err(s, "the `fuel` of the SRC entry is not a Python expression")
         if fuel.t != INT or self.pre:
@@ -1377,19 +1718,30 @@ class Fn:
                         self.err(s, "loop changes the type of %s" % n)
                 return self.tuple_of(state, e2)
             saved = self.monadic
+            g0 = self.guard
             self.loop += 1
             try:
-                self.monadic = False
-                self.guard += 1
                 try:
-                    c = self.cond(s.test, benv)
+                    # first as a pure loop (nothing in the condition or the body can raise) …
+                    self.monadic = False
+                    c = "decide %s" % self.cond(s.test, benv)
                     body = self.block(list(s.body), benv, kk)
+                    mon = False
                 except NeedMonad:
-                    self.err(s, "an operation that can raise inside a while loop is not in the subset")
+                    # … otherwise condition and body are R-valued (`Py.whileLoopM`); `and` / `or` in the condition
+                    # short-circuit explicitly, so a raising operand is evaluated exactly when Python evaluates it
+                    self.guard = g0
+                    self.fresh, self.names = snap[0], set(snap[1])
+                    del self.notes[snap[2]:]
+                    del ends[:]
+                    self.pre = []
+                    self.monadic = True
+                    c = self.condM(s.test, benv)
+                    body = self.block(list(s.body), benv, lambda e2: "(.ok %s)" % kk(e2))
+                    mon = True
             finally:
                 self.monadic = saved
                 self.loop -= 1
-                self.guard -= 1
             bad = {n for n in keep if ends[0][n].lo is None or ends[0][n].lo < env[n].lo}
             if not bad:
                 break
@@ -1407,19 +1759,44 @@ class Fn:
         st_in = self.tmp("st") if len(state) > 1 else env[state[0]].s
         unpack = self.unpack_tuple(st_in, state, env)
         st_out = self.tmp("st") if len(state) > 1 else st_in
-        text = pre + "(Py.whileLoop (fun (%s : %s) =>\n%s) (fun (%s : %s) =>\n%s) (Int.toNat %s) %s : R (%s)) >>= fun %s =>\n" % (
-            st_in, ty, indent(unpack + "decide %s" % c), st_in, ty, indent(unpack + body), fuel.s,
+        text = pre + "(Py.%s (fun (%s : %s) =>\n%s) (fun (%s : %s) =>\n%s) (Int.toNat %s) %s : R (%s)) >>= fun %s =>\n" % (
+            "whileLoopM" if mon else "whileLoop", st_in, ty, indent(unpack + c), st_in, ty, indent(unpack + body), fuel.s,
             self.tuple_of(state, env), ty, st_out)
         text += self.unpack_tuple(st_out, state, env2)
         self.notes.append("the while loop at line %d runs for at most `%s` iterations (SRC entry); if it has not stopped by "
-                          "then the result is Err.fuel" % (s.lineno, self.spec["fuel"]))
+                          "then the result is Err.fuel" % (s.lineno, fuel_src))
         return text + self.block(rest, env2, k)
+
+    def condM(self, e, env):
+        """Lean text of type `R Bool` for a condition whose operands can raise; `a and b` evaluates `b` only when `a` is
+        true, `a or b` only when `a` is false (Python's short-circuit rule)"""
+        if isinstance(e, ast.BoolOp):
+            is_and = isinstance(e.op, ast.And)
+            out = None
+            for x in reversed(e.values):
+                if out is None:
+                    out = self.condM(x, env)
+                    continue
+                if isinstance(x, ast.BoolOp):
+                    inner = self.condM(x, env)
+                    b = self.tmp("c")
+                    out = "(%s) >>= fun (%s : Bool) =>\nif %s = true then (\n%s) else (\n%s)" % (
+                        inner, b, b, indent(out if is_and else "(.ok true)"), indent("(.ok false)" if is_and else out))
+                else:
+                    c = self.cond(x, env)
+                    out = self.flush("if %s then (\n%s) else (\n%s)" % (
+                        c, indent(out if is_and else "(.ok true)"), indent("(.ok false)" if is_and else out)))
+            return out
+        c = self.cond(e, env)
+        return self.flush("(.ok (decide %s))" % c)
 
     @staticmethod
     def whole_assigned(stmts, key):
         for st in stmts:
             for n in ast.walk(st):
                 tg = []
+                if isinstance(n, ast.Expr) and Fn.is_append(n.value) and n.value.func.value.id == key:
+                    return True           # append changes the length
                 if isinstance(n, ast.Assign):
                     tg = n.targets
                 elif isinstance(n, (ast.AugAssign, ast.AnnAssign)):
@@ -1560,6 +1937,18 @@ def translate_function(mod, spec):
             env[key] = V(v.s, INT, lo, hi)
             binders.append("(h_%s : %s ≤ %s ∧ %s ≤ %s)" % (v.s, lit(lo), v.s, v.s, lit(hi)))
             fn.notes.append("translated for %d <= %s <= %d only (hypothesis h_%s)" % (lo, key, hi, v.s))
+        if spec.get("mutates"):
+            if not params or params[0][1][0] != "rec":
+                raise TranslationError("%s: `mutates` needs a method whose first parameter is declared as an object" % spec["func"])
+            fn.owner = params[0][0]
+            keys = []
+            for a_ in spec["mutates"]:
+                key = fn.owner + "." + a_
+                if key not in env or env[key].t != INTS:
+                    raise TranslationError("%s: `mutates` names %s, which is not a declared int-list attribute" % (spec["func"], key))
+                keys.append(key)
+            # the tables are reached only through `self.<attr>` (any other name for them ends the permission to assign)
+            fn.set_own(env, keys)
         def fall(e2):
             raise TranslationError("%s:%d %s: control can reach the end of the function (returns None): not in the subset" % (
                 mod.relpath, node.end_lineno or node.lineno, spec["func"]))
@@ -1582,7 +1971,7 @@ def translate_function(mod, spec):
     lean = "%s\ndef %s %s : %s :=\n%s" % (doc, lean_name, " ".join(binders), rett, indent(text))
     mod.funcs[spec["func"] if "prefix_upto" not in spec and "from_var" not in spec else "#" + lean_name] = {
         "lean": lean_name, "params": params, "ret": fn.rettype, "monadic": monadic,
-        "ranges": dict(spec.get("ranges", {}))}
+        "ranges": dict(spec.get("ranges", {})), "mutates": list(spec.get("mutates", ()))}
     mod.defs.append(lean)
     return lean_name, monadic
 
